@@ -151,6 +151,41 @@ func vserhist(args []string) error {
 		}
 		runHist(h)
 	}
+	// what an earlier call leaves BEHIND the live end of the string table: Serialize(["<T><suffix>"]) then Serialize(["<T>",
+	// "<T><suffix>"]) on the same Serializer, for many T - a stale entry whose bytes start like the new string and hashes into
+	// the same bucket of the 16 K table (about one pair in 16 384) must not be taken for it
+	{
+		s := simdjson.NewSerializer()
+		d := simdjson.NewSerializer()
+		var dst *simdjson.ParsedJson
+		pairs := *sample * 3
+		if *prop != "C11" {
+			pairs = 0
+		}
+		for i := 0; i < pairs; i++ {
+			t := fmt.Sprintf("p%07d", i)
+			long := t + "-and-a-suffix"
+			p1, e1 := simdjson.Parse([]byte(`["`+long+`"]`), nil)
+			p2, e2 := simdjson.Parse([]byte(`["`+t+`","`+long+`"]`), nil)
+			if e1 != nil || e2 != nil {
+				return fmt.Errorf("prefix documents do not parse: %v %v", e1, e2)
+			}
+			s.Serialize(nil, *p1)
+			back, derr := d.Deserialize(s.Serialize(nil, *p2), dst)
+			rep.Evaluations++
+			if derr != nil {
+				rep.Add(run.Mismatch{Property: *prop, Sig: "serhist-prefix:" + t, Cfg: []string{"Serialize([" + long + "])", "Serialize([" + t + "," + long + "])"}, Want: "round trip", Got: derr.Error()})
+				continue
+			}
+			dst = back
+			it := back.Iter()
+			m, merr := it.MarshalJSON()
+			if want := `["` + t + `","` + long + `"]`; merr != nil || string(m) != want {
+				rep.Add(run.Mismatch{Property: *prop, Sig: "serhist-prefix:" + t, Cfg: []string{"Serialize([" + long + "])", "Serialize([" + t + "," + long + "])"}, Want: want, Got: fmt.Sprintf("%s err=%v", m, merr)})
+			}
+		}
+		rep.Count("prefix_pairs_on_one_serializer", int64(pairs))
+	}
 	rep.Cases = rep.Nontrivial
 	rep.Sample(map[string]interface{}{"operations": len(ops), "kind": "history on one Serializer"}, 1)
 	return rep.Write(*out)
